@@ -216,6 +216,7 @@ type WorldCfg struct {
 	MaxPoints      int64
 	ExtraTrunk     int // trunk blocks mined beyond InitialChain that are not announced at boot
 	Burst          int `json:",omitempty"` // extra independent relevant txs B001.. the burst event relays back to back
+	UDialFails     int `json:",omitempty"` // first n dials to untrusted peers are refused
 	MaxRetries     int `json:",omitempty"` // config.MaxRetries (0 = 25)
 	HeaderBatch    int `json:",omitempty"` // most headers the peer puts into one headers message (0 = 2000, Bitcoin's limit)
 }
@@ -253,6 +254,7 @@ type World struct {
 	alias      map[string]string
 	preferred  *vrt.Thread
 	batching   bool
+	uDialsLeftToFail int
 	bursted    map[string]bool // sources that have relayed their burst
 	fetchFail  int // the next n GetOutputs calls of the application's output fetcher fail
 	enabledAtKey []string
@@ -335,6 +337,7 @@ func NewWorld(cfg WorldCfg) *World {
 	vrt.Install(w.S)
 	vnet.Reset()
 	w.dialsLeftToFail = cfg.DialFails
+	w.uDialsLeftToFail = cfg.UDialFails
 	vnet.Net.Accept = w.accept
 	w.Store = core.NewRecStore(cfg.RemoveMissing)
 	w.Best = []string{"g"}
@@ -397,6 +400,10 @@ func (w *World) accept(addr string, server *vnet.VConn) bool {
 		w.P = pc
 		w.PConns = append(w.PConns, pc)
 		return true
+	}
+	if _, ok := w.U[addr]; ok && w.uDialsLeftToFail > 0 {
+		w.uDialsLeftToFail--
+		return false
 	}
 	if pc, ok := w.U[addr]; ok && pc.conn == nil {
 		pc.conn = server
